@@ -15,7 +15,7 @@ RULE = ("seeded random operation sequences (profile c08: ~35 external operations
 TRUSTED = [
     "modelled, not verified: go-diskqueue (a channel's queue is the multiset of messages waiting on it: placement and order are abstracted; only ephemeral queues are bounded), Go channels/select/mutexes (each operation is atomic at quiescence), time (every operation carries the harness's clock reading; timeouts are driven by VerifScan with margins of seconds)",
     "hooks /repo/nsqd/verif_core.go (VerifHeld, VerifScan: build tag verif); /stats over HTTP is the observation",
-    "the coarse model is quiescent-to-quiescent: interleavings inside one operation (the windows K1/K2/K3-K5 of DESIGN.md section 6) are below its grain",
+    "the coarse model is quiescent-to-quiescent: interleavings inside one operation (the windows K3-K5 of DESIGN.md section 6; K1 and K2 were repaired: F23, F24 of section 10.3) are below its grain; the schedule-level models of DESIGN 10.8 / 10.9 cover the lock protocol and the TOUCH / scan race",
     "schedule-level hand-off model (model/Handoff.v, DESIGN 10.8): the RWMutex (RLock enabled when the closer does not hold the write lock, Lock when nobody holds it; no writer preference: a superset of Go's behaviours), the atomic exit flag (sequentially consistent steps) and Go's defer (the unlock runs on every way out) are modelled, not verified; that the functions listed in gen/CoreShape.v core_touches are the only ones that move a message between a channel's sets or into a topic's queue rests on the translator (tools/gotables/coreshape.go); locks outside the model (Channel.Lock, inFlightMutex, NSQD.Lock) are not part of the no-deadlock statement",
 ]
 ASSUMPTIONS = ["published message ids are fresh (C12)", "disk write errors do not occur"]
@@ -31,5 +31,5 @@ def drivers():
     return [{"driver": "coredrive", "args": args, "replay_args": lambda tier: [], "timeout": 1500}]
 LEVEL_TEXT = "Machine-checked proof (Coq) over the core model: emptying a channel leaves nothing queued/in flight/deferred, records everything as discarded, keeps subscriptions/paused flag/received count and zeroes exactly the subscribers' in-flight counters; deleting removes the object and a re-creation is empty with zero counters; ephemeral topics/channels are never among what a restart reloads; the conservation law of C13 is preserved by every step, empty and delete included. Trace validation on real nsqd with empty/delete/ephemeral operations on live traffic: the monitor checks that nothing discarded is delivered afterwards, deleted objects are gone and their consumers closed, ephemeral channels disappear with their last consumer and never reach nsqd.dat, counters stay right."
 LEVEL_TEXT = LEVEL_TEXT + " Schedules (model/Handoff.v): Channel.Empty, channel deletion and topic deletion never discard while a message is in somebody's hand, under ANY interleaving with ANY number of requeues / scans / puts in progress (C08_discards_vs_moves_every_schedule; the unlocked Empty of the source before 00776ee is refuted); a SUB in progress is either refused or closed with the channel's other consumers (C08_subscriber_closed_or_refused_every_schedule)."
-LEVEL_NOTE = "Concurrency INSIDE one operation (empty/delete racing FIN/REQ/deliver between two critical sections: K1, K2 of DESIGN.md section 6; the F7 panic was repaired) is below the coarse model's grain; Go-runtime deadlock freedom is not expressible."
+LEVEL_NOTE = "Concurrency INSIDE one operation (empty/delete racing FIN/REQ/TOUCH/deliver/scans between two critical sections) is below the coarse model's grain: it is covered by the schedule-level hand-off model (DESIGN 10.8) for the lock protocol and by forced interleavings on the real daemon (F7, F17, F18, F21, F23, F24 were found and repaired that way); Go-runtime deadlock freedom beyond the modelled locks is not expressible."
 DESIGN_REF = "DESIGN.md section 5.0 and C08"
